@@ -64,7 +64,8 @@ class Check(object):
         self.known = [k for k in load_known() if k.get('property') == pid]
         self.open_keys = {k['key']: k for k in self.known if k.get('status') == 'open'}
         self.counters = {}
-        shutil.rmtree(os.path.join(VERIF, 'replay', pid), ignore_errors=True)
+        if not os.environ.get('VERIF_KEEP_REPLAY'):
+            shutil.rmtree(os.path.join(VERIF, 'replay', pid), ignore_errors=True)
 
     # ----- observations
     def ev(self, n=1):
